@@ -42,7 +42,7 @@ ASSUMPTIONS = ['merging requires amplitudes.npy, pc_feature_ind.npy, template_fe
 def _case(draw):
     c = draw(G.merge_case(exclude_f13=F13_KEY in KNOWN, big_templates=True))
     # half of the cases: the same probes are merged a second time in the same process
-    c['again'] = draw(st.sampled_from([False, True, True, 'same-merger']))
+    c['again'] = draw(st.sampled_from([False, True, True, 'same-merger', 'reversed-same-dir']))
     return c
 
 
@@ -166,16 +166,30 @@ def check(case):
     with env.scratch() as d:
         Ts = G.build_probes(case, d)
         for out in [G.out_dir_for(case, d)] + ([d / 'merged2'] if case.get('again') is True else []):
-            merger, model = G.run_merge(Ts, out, must_return)
+            merger, model = G.run_merge(Ts, out, must_return,
+                                        rel_root=d if case.get('rel') else None)
             try:
                 model.close()
             except Exception:
                 pass
             _verify(Ts, out, info)
+            if case.get('again') == 'reversed-same-dir' and len(Ts) >= 2:
+                # the probes are merged again, in the opposite order, over the earlier output
+                Tr = Ts[::-1]
+                if any(G.needs_f13_shift(a.pos.tolist(), b.pos.tolist())
+                       for a, b in zip(Tr, Tr[1:])) and F13_KEY in KNOWN:
+                    continue        # the reversed order would be the recorded finding F13
+                merger, model = G.run_merge(Tr, out, must_return)
+                try:
+                    model.close()
+                except Exception:
+                    pass
+                _verify(Tr, out, info)
             if case.get('again') == 'same-merger':
                 # merge() is called again on the same Merger object (same output directory)
-                model = must_return('Merger.merge() (second call on the same object)',
-                                    merger.merge)
+                with G.in_dir(d if case.get('rel') else None):
+                    model = must_return('Merger.merge() (second call on the same object)',
+                                        merger.merge)
                 try:
                     model.close()
                 except Exception:
@@ -209,7 +223,10 @@ def classify(case, info):
     if case.get('f13_excluded'):
         labels.append('f13-shape-excluded')
     if case.get('again'):
-        labels.append('second-merge-in-process' + (':same-merger' if case['again'] != True else ''))
+        labels.append('second-merge-in-process' + ('' if case['again'] is True else
+                                                   ':' + str(case['again'])))
+    if case.get('rel'):
+        labels.append('relative-probe-paths')
     kinds = set(p.get('wm_kind') for p in ps if p['wm'])
     if kinds - {None}:
         labels.append('triangular-or-diagonal-whitening')
